@@ -1,7 +1,7 @@
 """C13 configuration for ./check (see checks/propcfg.py for the keys)."""
 CFG = {
-    "modules": ["VaxisModel.Props.C13", "VaxisModel.Props.C13Body", "VaxisModel.Props.C13Ext", "VaxisModel.Props.C13Shift", "VaxisModel.Props.C13Child"],
-    "extractors": ["C09", "C13", "C05"],
+    "modules": ["VaxisModel.Props.C13", "VaxisModel.Props.C13Body", "VaxisModel.Props.C13Ext", "VaxisModel.Props.C13Shift", "VaxisModel.Props.C13Child", "VaxisModel.Props.C13Parse"],
+    "extractors": ["C09", "C13", "C05", "C02"],
     "drivers": ["C13"],
     "trivial_prefix": ("-|-|", "-|-"),
     "rule": "key: every Key* constant and alias x 8 xterm modifier sets (+ kitty-only modifier sets), every printable ASCII key x 8 "
@@ -46,7 +46,12 @@ CFG = {
                   "forwarded_encoding_is_selected (Emu.runOps then Update: the bytes are the encoder's output for the modes the stream last selected), "
                   "ris_restores_input_defaults / after_ris_nothing_enabled, cursor_keys_/paste_/mouse_gated_ follow_child_stream (compositions with cursor_mode_selects, "
                   "paste_gated, mouse_gated). release_not_forwarded (F313 fixed b3daf4e: key releases write nothing). The oracle on the real code uses Spec.specModesOfStream on token scripts "
-                  "fed through the real parser and Model.update. Observations, not defects of the property: DECSTR / XTSAVE / XTRESTORE unimplemented (select nothing), Alt + text production "
+                  "fed through the real parser and Model.update. "
+                  "Props/C13Parse (composition with the parser model of C02, Model.Parser.run over the regenerated table): special_key_reports_parse_back, ascii_key_reports_parse_back "
+                  "(every xterm legacy report the encoder writes, as bytes, parses back from ground to exactly that sequence; kernel decide), sgr_mouse_report_parses_back (any button / position < 2^63, "
+                  "via C02.csi_roundtrip and decimal = digitsOf), paste_markers_parse_back, text_parses_back, alt_char_parses_back + alt_domain_is_parser_domain (the Alt exclusions of the round-trip "
+                  "domain are exactly the bytes the parser's escape state does not dispatch). "
+                  "Observations, not defects of the property: DECSTR / XTSAVE / XTRESTORE unimplemented (select nothing), Alt + text production "
                   "is sent as ESC + key. Modelled not verified: parser, unicode tables, pty write.",
     "assumptions": ["Key.Text and the strings written are valid UTF-8"],
     "timeout": 900,
